@@ -4,6 +4,7 @@ CONTRACT_MODULES = ["contracts.table_sel", "contracts.table_cache", "contracts.t
 FUNCTIONS = ["Table._get_row_indices@value-range", "Table._get_row_indices@name-span", "Table._get_regexp_indices@scan", "Table._get_regexp_indices@combine", "Table._get_row_cache"]
 RAC = "rac/c08.py"
 RAC_BUDGET = {"quick": 60, "thorough": 900}
+RAC_MIN = {"quick": 18749, "thorough": 18749}      # fewer run-time evaluations than this = the harness skipped its work: checker broken, not "held"
 DESIGN_REF = "DESIGN.md section 4, C08"
 TECHNIQUE = ("contract-based deductive verification of Table._get_row_indices one selector form per variant contract (value ranges and "
              "name spans; pyvc selector engine with numpy-lite masks and np.where; z3) and of Table._get_regexp_indices in two mechanically "
